@@ -540,3 +540,144 @@ pub fn liar_program(i: u64, sink: &mut ChildSink) {
     if prec == 0 { liar_case::<8>(kind, a, b) } else { liar_case::<4>(kind, a, b) }
     sink.count("programs_ending_in_a_value_or_error", 1);
 }
+
+// ---------------------------------------------------------------- user-written backends that fail, lie and are not fused
+// `ReadWords` / `WriteWords` are safe traits too. A backend that returns `Err` at any call, keeps failing, yields data
+// again after it reported the end, or silently drops a word voids the functional guarantees, not memory safety — and the
+// `?` paths of every coder (which no infallible `Vec` backend ever takes) must not leave a coder in a state from which
+// later safe calls reach an unsafe precondition.
+thread_local! { static DEFAULT_FAULT: core::cell::Cell<(u8, usize)> = core::cell::Cell::new((3, 0)); }
+#[derive(Clone, Debug)]
+struct Faulty<W> { buf: Vec<W>, front: usize, calls: usize, mode: u8, k: usize }
+impl<W> Faulty<W> {
+    fn new(buf: Vec<W>, mode: u8, k: usize) -> Self { Faulty { buf, front: 0, calls: 0, mode, k } }
+    /// what this call does: 0 = works, 1 = Err, 2 = lie (end of data / word dropped)
+    fn turn(&mut self) -> u8 {
+        let c = self.calls; self.calls += 1;
+        match self.mode { 0 if c == self.k => 1, 1 if c >= self.k => 1, 2 if c == self.k => 2, _ => 0 }
+    }
+}
+impl<W> Default for Faulty<W> { fn default() -> Self { let (m, k) = DEFAULT_FAULT.with(|d| d.get()); Faulty::new(Vec::new(), m, k) } }
+impl<W: Copy> constriction::backends::WriteWords<W> for Faulty<W> {
+    type WriteError = ();
+    fn write(&mut self, word: W) -> Result<(), ()> { match self.turn() { 1 => Err(()), 2 => Ok(()), _ => { self.buf.push(word); Ok(()) } } }
+}
+impl<W: Copy> ReadWords<W, Stack> for Faulty<W> {
+    type ReadError = ();
+    fn read(&mut self) -> Result<Option<W>, ()> { match self.turn() { 1 => Err(()), 2 => Ok(None), _ => Ok(if self.buf.len() > self.front { self.buf.pop() } else { None }) } }
+}
+impl<W: Copy> ReadWords<W, constriction::Queue> for Faulty<W> {
+    type ReadError = ();
+    fn read(&mut self) -> Result<Option<W>, ()> {
+        match self.turn() { 1 => Err(()), 2 => Ok(None), _ => Ok(if self.front < self.buf.len() { self.front += 1; Some(self.buf[self.front - 1]) } else { None }) }
+    }
+}
+impl<W: Copy> constriction::backends::BoundedReadWords<W, constriction::Queue> for Faulty<W> {
+    /// (a lie in mode 2)
+    fn remaining(&self) -> usize { if self.mode == 2 { usize::MAX } else { self.buf.len() - self.front } }
+}
+const FAULT_PROGRAMS: u64 = 10;
+const FAULT_KS: u64 = 14;
+pub fn faults_total() -> u64 { FAULT_PROGRAMS * (3 * FAULT_KS + 1) }
+pub fn faults_program(i: u64, sink: &mut ChildSink) {
+    let prog = i % FAULT_PROGRAMS;
+    let f = i / FAULT_PROGRAMS;
+    let (mode, k) = if f == 3 * FAULT_KS { (3u8, 0usize) } else { ((f / FAULT_KS) as u8, (f % FAULT_KS) as usize) };
+    let data: Vec<u8> = vec![0x12, 0xff, 0x00, 0x80, 0x5a, 0x01, 0xfe, 0x33, 0xff, 0xff, 0x00, 0x01];
+    let raws: [(u8, u8); 8] = [(255, 1), (0, 1), (255, 1), (127, 2), (254, 1), (255, 1), (0, 255), (128, 128)];
+    let desc = move || format!("program #{prog} over a user-written backend with fault mode {mode} (0 = Err once, 1 = Err from then on, 2 = lies once, 3 = none) at call #{k}");
+    hostile(sink, i, "coders over a user-written backend that fails or lies", desc, || {
+        DEFAULT_FAULT.with(|d| d.set((mode, k)));
+        let part = Part::<u8, 8> { c: 100, p: 57 };
+        let part4 = Part::<u8, 4> { c: 5, p: 9 };
+        match prog {
+            0 => {
+                let mut e = RangeEncoder::<u8, u32, _>::with_backend(Faulty::new(vec![], mode, k));
+                for r in raws.iter().chain(raws.iter()) { let _ = e.encode_symbol((), Raw::<u8, 8> { c: r.0, p: r.1 }); }
+                let _ = e.into_compressed();
+            }
+            1 => {
+                let mut e = RangeEncoder::<u8, u16, _>::with_backend(Faulty::new(vec![7, 7], mode, k));
+                for r in raws.iter().chain(raws.iter()) { let _ = e.encode_symbol((), Raw::<u8, 8> { c: r.0, p: r.1 }); }
+                let _ = e.into_compressed();
+            }
+            2 => {
+                if let Ok(mut d) = RangeDecoder::<u8, u32, _>::with_backend(Faulty::new(data.clone(), mode, k)) {
+                    for _ in 0..10 { let _ = d.decode_symbol(part); let _ = d.decode_symbol(part4); }
+                    let _ = d.maybe_exhausted();
+                }
+                if let Ok(mut d) = RangeDecoder::<u8, u16, _>::with_backend(Faulty::new(data.clone(), mode, k)) {
+                    for _ in 0..10 { let _ = d.decode_symbol(part); }
+                }
+            }
+            3 => {
+                for binary in [false, true] {
+                    let b = Faulty::new(data.clone(), mode, k);
+                    let c = if binary { AnsCoder::<u8, u32, _>::from_binary(b).ok() } else { AnsCoder::<u8, u32, _>::from_compressed(b).ok() };
+                    if let Some(mut c) = c {
+                        for _ in 0..6 { let _ = c.decode_symbol(part); }
+                        for r in raws.iter() { let _ = c.encode_symbol((), Raw::<u8, 8> { c: r.0, p: r.1 }); }
+                        for _ in 0..12 { let _ = c.decode_symbol(part4); }
+                        let _ = (c.is_empty(), c.into_raw_parts());
+                    }
+                }
+            }
+            4 => {
+                let mut c = AnsCoder::<u8, u16, _>::from_raw_parts(Faulty::new(vec![], mode, k), 0);
+                for r in raws.iter() { let _ = c.encode_symbol((), Raw::<u8, 8> { c: r.0, p: r.1 }); }
+                for _ in 0..4 { let _ = c.decode_symbol(part); }
+                for r in raws.iter() { let _ = c.encode_symbol((), Raw::<u8, 8> { c: r.0, p: r.1 }); }
+                let _ = c.into_compressed();
+            }
+            5 => {
+                if let Ok(mut c) = ChainCoder::<u8, u16, Faulty<u8>, Faulty<u8>, 4>::from_binary(Faulty::new(data.clone(), mode, k)) {
+                    for _ in 0..8 { let _ = c.decode_symbol(part4); }
+                    for r in raws.iter() { let _ = c.encode_symbol((), Raw::<u8, 4> { c: r.0 & 7, p: 1 + (r.1 & 7) }); }
+                    let _ = c.into_remainders();
+                }
+                if let Ok(mut c) = ChainCoder::<u8, u16, Faulty<u8>, Faulty<u8>, 4>::from_compressed(Faulty::new(data.clone(), mode, k)) {
+                    for _ in 0..8 { let _ = c.decode_symbol(part4); }
+                    let _ = c.into_remainders();
+                }
+            }
+            6 => {
+                if let Ok(mut c) = ChainCoder::<u8, u16, Faulty<u8>, Faulty<u8>, 4>::from_remainders(Faulty::new(data.clone(), mode, k)) {
+                    for r in raws.iter().chain(raws.iter()) { let _ = c.encode_symbol((), Raw::<u8, 4> { c: r.0 & 7, p: 1 + (r.1 & 7) }); }
+                    for _ in 0..3 { let _ = c.decode_symbol(part4); }
+                    let _ = c.clone().into_compressed().map(|_| ());
+                    let _ = c.into_binary().map(|_| ());
+                }
+            }
+            7 => {
+                if let Ok(mut s) = StackCoder::<u8, _>::from_compressed(Faulty::new(data.clone(), mode, k)) {
+                    for b in 0..20 { let _ = s.write_bit(b % 3 == 0); }
+                    for _ in 0..30 { let _ = s.read_bit(); }
+                    for b in 0..9 { let _ = s.write_bit(b % 2 == 0); }
+                    let _ = s.into_compressed();
+                }
+            }
+            8 => {
+                let mut q = QueueEncoder::<u8, _>::from_compressed(Faulty::new(vec![], mode, k));
+                for b in 0..40 { let _ = q.write_bit(b % 3 == 0); }
+                let _ = q.into_compressed();
+                let mut d = QueueDecoder::<u8, _>::from_compressed(Faulty::new(data.clone(), mode, k));
+                for _ in 0..120 { let _ = d.read_bit(); }
+                let _ = d.maybe_exhausted();
+            }
+            _ => {
+                // Exp-Golomb with callbacks / sources failing at bit #k
+                for v in [0u32, 1, 2, 7, 8, 255, 65535, u32::MAX - 1, u32::MAX] {
+                    let mut n = 0usize;
+                    let _ = ExpGolomb::<u32>::default().encode_symbol_prefix(v, |_b| { n += 1; if mode != 3 && n - 1 == k { Err(()) } else { Ok(()) } });
+                    let mut n = 0usize;
+                    let _ = ExpGolomb::<u32>::default().encode_symbol_suffix(v, |_b| { n += 1; if mode == 1 && n > k || n - 1 == k && mode != 3 { Err(()) } else { Ok(()) } });
+                }
+                for bits in [0u64, 1, 0b1000, 0x8000_0000, u64::MAX, 0x5555_5555_5555_5555] {
+                    let mut it = (0..64usize).map(|j| if mode != 3 && j == k { Err(()) } else { Ok((bits >> (j % 64)) & 1 == 1) });
+                    let _ = ExpGolomb::<u32>::default().decode_symbol(&mut it);
+                    let _ = ExpGolomb::<u32>::default().decode_symbol(&mut it);
+                }
+            }
+        }
+    });
+}
